@@ -1158,7 +1158,9 @@ class PureInterp:
             raise Unsupported(f"call to {name}")
         if isinstance(f, ClassInfo):
             if "construct" in self.hooks:
-                return self.hooks["construct"](f, args, kwargs)
+                res = self.hooks["construct"](f, args, kwargs)
+                if res is not NotImplemented:
+                    return res
             nt = self._namedtuple_type(f)
             if nt is not None:
                 try:
